@@ -202,6 +202,13 @@ pub struct StdBroker {
     /// pushes labelled "d.*" (deliveries) stop being offered once the client has sent any of
     /// these (channel, class, method)
     pub delivery_stoppers: Vec<(u16, u16, u16)>,
+    /// channels on which a content (Deliver / Return / GetOk + header + body) has been started
+    /// and not finished by this server: remaining body bytes (None = header not sent yet). A
+    /// compliant server sends nothing else on such a channel: replies are deferred, pushes wait.
+    pub content_open: BTreeMap<u16, Option<u64>>,
+    pub deferred: Vec<(u16, Vec<AMQPFrame>)>,
+    /// false: the script deliberately violates the protocol (C07 scenario), no content discipline
+    pub strict_content: bool,
 }
 
 impl StdBroker {
@@ -235,6 +242,9 @@ impl StdBroker {
             closing_channels: Default::default(),
             timed: VecDeque::new(),
             delivery_stoppers: Vec::new(),
+            content_open: BTreeMap::new(),
+            deferred: Vec::new(),
+            strict_content: true,
         }
     }
 
@@ -433,6 +443,11 @@ impl StdBroker {
         if self.silent_after_handshake {
             return;
         }
+        if self.content_open.contains_key(&chan) {
+            // a reply must not cut into the content being sent on this channel
+            self.deferred.push((chan, frames));
+            return;
+        }
         if self.hold_replies && self.seq.get(&chan).copied().unwrap_or(0) > self.hold_after_seq {
             self.held.entry(chan).or_default().push_back(frames);
         } else {
@@ -449,6 +464,55 @@ impl StdBroker {
             }
             self.emitted += 1;
             out.bytes.extend_from_slice(&b);
+            if !self.strict_content {
+                continue;
+            }
+            match f {
+                AMQPFrame::Method(c, AMQPClass::Basic(basic::AMQPMethod::Deliver(_))) | AMQPFrame::Method(c, AMQPClass::Basic(basic::AMQPMethod::Return(_))) | AMQPFrame::Method(c, AMQPClass::Basic(basic::AMQPMethod::GetOk(_))) => {
+                    self.content_open.insert(*c, None);
+                }
+                AMQPFrame::Method(c, AMQPClass::Channel(channel::AMQPMethod::Close(_))) => {
+                    // (scripts that close a channel in the middle of a content abandon it)
+                    self.content_open.remove(c);
+                }
+                AMQPFrame::Header(c, _, h) => {
+                    if self.content_open.contains_key(c) {
+                        if h.body_size == 0 {
+                            self.content_open.remove(c);
+                        } else {
+                            self.content_open.insert(*c, Some(h.body_size));
+                        }
+                    }
+                }
+                AMQPFrame::Body(c, b) => {
+                    if let Some(Some(rem)) = self.content_open.get(c).cloned() {
+                        let rem = rem.saturating_sub(b.len() as u64);
+                        if rem == 0 {
+                            self.content_open.remove(c);
+                        } else {
+                            self.content_open.insert(*c, Some(rem));
+                        }
+                    }
+                }
+                _ => {}
+            }
+        }
+        // replies that waited for a content to finish
+        let ready: Vec<usize> = self.deferred.iter().enumerate().filter(|(_, (c, _))| !self.content_open.contains_key(c)).map(|(i, _)| i).collect();
+        if !ready.is_empty() {
+            let mut rest = Vec::new();
+            let mut go = Vec::new();
+            for (i, d) in std::mem::take(&mut self.deferred).into_iter().enumerate() {
+                if ready.contains(&i) {
+                    go.push(d);
+                } else {
+                    rest.push(d);
+                }
+            }
+            self.deferred = rest;
+            for (c, fs) in go {
+                self.emit(c, fs, out);
+            }
         }
     }
 
@@ -531,7 +595,11 @@ impl StdBroker {
                 AMQPFrame::Method(chan, AMQPClass::Channel(channel::AMQPMethod::Close(_))) if self.closing_channels.contains(&chan) => {
                     // crossing closes: the client's Close is answered although we sent our own
                     let f = vec![AMQPFrame::Method(chan, AMQPClass::Channel(channel::AMQPMethod::CloseOk(channel::CloseOk {})))];
-                    self.emit_now(&f, out);
+                    if self.content_open.contains_key(&chan) {
+                        self.deferred.push((chan, f));
+                    } else {
+                        self.emit_now(&f, out);
+                    }
                 }
                 AMQPFrame::Method(chan, _) | AMQPFrame::Header(chan, _, _) | AMQPFrame::Body(chan, _) if self.closing_channels.contains(&chan) => {}
                 AMQPFrame::Method(chan, m) => {
@@ -587,6 +655,18 @@ impl StdBroker {
         }
         if p.after_pushes != usize::MAX && self.pushes_used < p.after_pushes {
             return false;
+        }
+        // a content in progress on a channel is finished before anything else is sent on it,
+        // and finishing it is not subject to the stoppers below
+        match p.frames.first() {
+            Some(AMQPFrame::Header(c, _, _)) | Some(AMQPFrame::Body(c, _)) if self.content_open.contains_key(c) => {
+                return match &p.after_label {
+                    Some(l) => self.pushes.iter().any(|q| q.used && q.label == *l),
+                    None => true,
+                };
+            }
+            Some(AMQPFrame::Method(c, _)) if *c != 0 && self.content_open.contains_key(c) => return false,
+            _ => {}
         }
         if p.label.starts_with("d.") {
             for (chan, class, method) in &self.delivery_stoppers {
@@ -677,7 +757,7 @@ impl Broker for StdBroker {
             return v;
         }
         for (chan, q) in &self.held {
-            if !q.is_empty() {
+            if !q.is_empty() && !self.content_open.contains_key(chan) {
                 v.push(format!("release({})", chan));
             }
         }
@@ -691,7 +771,7 @@ impl Broker for StdBroker {
 
     fn apply(&mut self, idx: usize, out: &mut BrokerOut) {
         let mut i = 0usize;
-        let chans: Vec<u16> = self.held.iter().filter(|(_, q)| !q.is_empty()).map(|(c, _)| *c).collect();
+        let chans: Vec<u16> = self.held.iter().filter(|(c, q)| !q.is_empty() && !self.content_open.contains_key(c)).map(|(c, _)| *c).collect();
         for chan in chans {
             if i == idx {
                 let fs = self.held.get_mut(&chan).unwrap().pop_front().unwrap();
